@@ -521,6 +521,12 @@ def instantiate(rng, h, t, assign):
         o = assign[t[1]]
         # move along the chain: mostly subtypes (children) or the same
         r = rng.random()
+        if r < 0.08:
+            # a compound argument for a variable that earlier arguments may
+            # already have bounded (from below or, contravariantly, from above)
+            un = [q for q in h.ids if h.arity(q) == 1]
+            if un:
+                return ("o", rng.choice(un), [("o", o, [])])
         if r < 0.5:
             return ("o", o, [])
         kids = [c for c, p in h.parents.items() if p == o]
@@ -562,6 +568,53 @@ def gen_program(rng, h, constrained=True):
         prog.append(("apply", cur, argi, True))
         cur = nvals
         nvals += 1
+    return prog
+
+
+def gen_bound_then_other(rng, h):
+    """Targeted family: one variable met first through a bound-inducing context
+    (covariant: lower bound, contravariant: upper bound) and then by an
+    argument of another shape (compound, unrelated base, Top/Bottom)."""
+    base = list(range(5, 5 + h.nbase))
+    un = [q for q in h.ids if h.arity(q) == 1]
+    x = ("v", 0)
+
+    def ctx(kind, t):
+        b0 = ("o", rng.choice(base), [])
+        if kind == "id":
+            return t
+        if kind == "F":
+            return ("o", rng.choice(un), [t])
+        if kind == "arg":
+            return ("o", 3, [t, b0])
+        if kind == "res":
+            return ("o", 3, [b0, t])
+        return ("o", 4, [t, b0])
+    kinds = ["id", "F", "arg", "res", "prod"]
+    n = rng.randint(2, 3)
+    ks = [rng.choice(kinds) for _ in range(n)]
+    res = rng.choice([x, ("o", rng.choice(un), [x])])
+    body = res
+    for k in reversed(ks):
+        body = ("o", 3, [ctx(k, x), body])
+    cs = [gen_constraint(rng, h, 1)] if rng.random() < 0.3 else []
+    prog = [("inst", (1, body, cs))]
+    cur, nvals = 0, 1
+    b1 = rng.choice(base)
+    for i, k in enumerate(ks):
+        r = rng.random()
+        if i == 0 or r < 0.4:
+            fill = ("o", rng.choice(chain_of(h, b1) + [c for c, p in h.parents.items() if p == b1] + [b1]), [])
+        elif r < 0.75:
+            fill = ("o", rng.choice(un), [("o", b1, [])])
+        elif r < 0.85:
+            fill = ("o", 3, [("o", b1, []), ("o", b1, [])])
+        else:
+            fill = ("o", rng.choice(base + [0, 1]), [])
+        prog.append(("inst", (0, ctx(k, fill) if k != "id" else fill, [])))
+        prog.append(("apply", cur, nvals, True))
+        cur = nvals + 1
+        nvals += 2
     return prog
 
 
